@@ -352,6 +352,17 @@ def m_str_index_range(ex, st, args, dest_ty, fname):
     return cases
 
 
+def m_str_get_range(ex, st, args, dest_ty, fname):
+    """str::get(a..b): Some(slice) when both offsets are char boundaries in range, else None."""
+    a, b = args[1][1]
+    if not is_sym(a) and not is_sym(b) and a > b:
+        return NONE
+    r = m_str_index_range(ex, st, args, dest_ty, fname)
+    if not isinstance(r, list):
+        return some(r)
+    return [(c, NONE if isinstance(v, Panic) else some(v)) for c, v in r]
+
+
 def _substr(s, i, j):
     cs = str_chars(s)
     return SymStr(getattr(s, "name", "s") + "[%d..%d]" % (i, j), tuple(cs[i:j])) if isinstance(s, SymStr) else ConcStr(s.s[i:j])
@@ -526,6 +537,7 @@ COMMON = [
     M(r"^char::methods::<impl char>::to_ascii_uppercase$", m_to_ascii_uppercase),
     M(r"^char::methods::<impl char>::to_ascii_lowercase$", m_to_ascii_lowercase),
     M(r"^<str as Index<std::ops::Range<usize>>>::index$", m_str_index_range),
+    M(r"^core::str::<impl str>::get::<std::ops::Range<usize>>$", m_str_get_range),
     M(r"^core::str::<impl str>::trim_end_matches::<char>$", m_trim_end_matches_char),
     M(r"^core::str::<impl str>::trim_start_matches::<char>$", m_trim_start_matches_char),
     M(r"^core::str::<impl str>::ends_with::<char>$", m_ends_with_char),
